@@ -5,9 +5,12 @@ package main
 import (
 	"fmt"
 	"math/rand"
+	"reflect"
+	"runtime"
 	"sort"
 	"strconv"
 	"time"
+	"unsafe"
 
 	"github.com/esimov/gogu/cache"
 	"github.com/esimov/gogu/zzshim/vtime"
@@ -58,28 +61,54 @@ func ecDur(d int) time.Duration {
 	return time.Duration(d) * ecUnit // other negative durations are negative durations: no expiry either
 }
 
-var ecJanitorSlow = false
+var (
+	ecNews int
+	ecPrev *cache.Cache[string, string]
+)
+
+func ecStopJanitor(c *cache.Cache[string, string]) {
+	if c == nil {
+		return
+	}
+	defer func() { recover() }()
+	inner := reflect.ValueOf(c).Elem().Field(0)
+	if inner.Kind() != reflect.Ptr || inner.IsNil() {
+		return
+	}
+	f := inner.Elem().FieldByName("done")
+	if !f.IsValid() || f.Kind() != reflect.Chan {
+		return
+	}
+	ch := reflect.NewAt(f.Type(), unsafe.Pointer(f.UnsafeAddr())).Elem()
+	for i := 0; i < 20; i++ {
+		if ch.TrySend(reflect.Zero(ch.Type().Elem())) {
+			return
+		}
+		runtime.Gosched()
+	}
+}
 
 func (s *ecSys) Do(o tt.Op) tt.Res {
 	switch o.N {
 	case "new":
 		vtime.Enable(false)
 		def := ecDur(o.A[0])
+		// the cleanup goroutine of a cache only stops when the cache is collected - and the code at the pinned
+		// commit never lets that happen (the goroutine itself keeps the finalised object reachable): without
+		// help thousands of them pile up and every quiescence check has to look at them all.  The cache of
+		// the previous scenario is not used any more: tell its goroutine to stop, through the unexported
+		// `done` channel if there is one (best effort, by reflection).
+		ecStopJanitor(ecPrev)
+		if ecNews++; ecNews%256 == 0 {
+			runtime.GC()
+		}
 		s.c = cache.New[string, string](def, time.Duration(o.A[1])*ecUnit)
+		ecPrev = s.c
 		if o.A[1] > 0 {
-			// the cleanup goroutine arms its ticker asynchronously: wait for it so that
-			// the interval is counted from the construction instant
-			lim := 400000
-			if ecJanitorSlow {
-				lim = 2000
-			}
-			i := 0
-			for ; i < lim && vtime.Pending() == 0; i++ {
-				time.Sleep(5 * time.Microsecond)
-			}
-			if i == lim {
-				ecJanitorSlow = true
-			}
+			// the cleanup goroutine arms its ticker asynchronously: wait until it has come to rest (every other
+			// goroutine blocked), so that the interval is counted from the construction instant - or, for an
+			// implementation that starts its cleanup later, from whenever it chooses to
+			vtime.Quiesce(500 * time.Millisecond)
 		}
 		return tt.Res{Ok: s.c != nil}
 	case "set":
